@@ -38,7 +38,10 @@ TYPES = ['int', ['var'], ['list', ['var']], ['opt', ['var']], ['dict', ['var']],
          # a generic dataclass below a container / Optional / condition, and through a re-parameterised alias (BoxL = Box[List[V]])
          ['list', ['box', ['var']]], ['opt', ['box', ['var']]], ['dict', ['box', ['var']]], ['annot', ['box', ['var']]], ['boxl', ['var']],
          # a union that mentions the variable next to an overlapping member, in both orders (members are tried left to right)
-         ['unionf', ['var']], ['funion', ['var']]]
+         ['unionf', ['var']], ['funion', ['var']],
+         # two generic dataclasses deep: the inner one is itself an ARGUMENT of the outer one (typing does not see variables inside
+         # an argument that is a real class)
+         ['box', ['box', ['var']]], ['box', ['pair', ['var']]]]
 CONCRETE = ['int', 'str', 'float']
 VARNAMES = ['T', 'U', 'V', 'W']
 _TV = {n: t.TypeVar(n) for n in VARNAMES}
@@ -759,6 +762,40 @@ def check_mixins(pane, res):
         if got != want:
             core.add_violation(res, {'kind': 'options_through_plain_mixin', 'case': label},
                                f"{label}: options of the pane base are not in force in the subclass: got {got!r}, expected {want!r}", {'mixin': label}, 3)
+    # frozen and a validating hook, both INHERITED: the option stays in force whatever constructions were rejected before
+    def _fpost(self):
+        if self.x == 13:
+            raise ValueError('unlucky')
+    FBase = type('FBase', (pane.PaneBase,), {'__annotations__': {'x': int}, '__post_init__': _fpost, '__module__': 'mc.generated'})
+    FChild = type('FChild', (FBase,), {'__annotations__': {'y': int}, 'y': 2, '__module__': 'mc.generated'})
+    rejected = [('FChild(13)', lambda: FChild(13)), ("from_data({'x': 13}, FChild)", lambda: pane.from_data({'x': 13}, FChild)),
+                ("from_data({'x': 13}, Union[FChild, str])", lambda: pane.from_data({'x': 13}, t.Union[FChild, str])),
+                ('FBase(13)', lambda: FBase(13))]
+    for k in range(len(rejected) + 1):
+        for seq in itertools.permutations(rejected, k):
+            res['states'] += 1
+            res['evals'] += 1
+            res['validated'] += 1
+            label = ' ; '.join(n for n, _ in seq) or '(nothing)'
+            res['nontrivial'].add(f"inherited_frozen|{label}")
+            inst, binst = FChild(1), FBase(1)
+            problem = None
+            for n, f in seq:
+                try:
+                    f()
+                    problem = f"{n} was not rejected by the inherited hook"
+                except Exception:  # noqa
+                    pass
+            for who, o in (('FChild', inst), ('FBase', binst)):
+                try:
+                    o.x = 100
+                    problem = problem or f"after the rejected constructions [{label}] an instance of {who} (frozen by inheritance) accepted `o.x = 100` (now {o!r})"
+                except dataclasses.FrozenInstanceError:
+                    pass
+                except Exception as e:  # noqa
+                    problem = problem or f"assignment raised {type(e).__name__}"
+            if problem:
+                core.add_violation(res, {'kind': 'inherited_frozen_lost', 'n_rejected': len(seq)}, problem, {'mixin': 'inherited_frozen:' + label}, 3 + len(seq))
     # a base with a field it initialises itself (init=False), a subclass appending a field: positional data follows the constructor
     NBase = type('NBase', (pane.PaneBase,), {'__annotations__': {'x': int, 'y': t.List[int]},
                                              'y': pane.field(init=False, exclude=True, compare=False, repr=False),
